@@ -12,6 +12,7 @@ mod c11;
 mod c12;
 mod c13;
 mod c14;
+mod c15;
 mod c16;
 mod c17;
 mod c19;
@@ -41,6 +42,7 @@ fn main() {
         "c12" => c12::run(&args),
         "c13" => c13::run(&args),
         "c14" => c14::run(&args),
+        "c15" => c15::run(&args),
         "c16" => c16::run(&args),
         "c17" => c17::run(&args),
         "c19" => c19::run(&args),
